@@ -200,6 +200,16 @@ func panicClass(x any) string {
 // runCase executes one history with a watchdog, so that a hang in the code
 // under test is an observation ("hang") and not a stuck check.
 func runCase(s *Stream, ops []string, st *Stats, out *bufio.Writer, timeout time.Duration) {
+	if st.Hangs >= 3 {
+		// The implementation under test hangs again and again (each hang costs a full watchdog period and leaves
+		// a spinning goroutine behind): do not execute further histories, say so on every line.
+		for _, line := range ops {
+			fmt.Fprintf(out, "%s\tskipped-after-hangs\n", line)
+			st.Ops++
+		}
+		st.endCase(ops)
+		return
+	}
 	obs := make([]string, len(ops))
 	done := make(chan struct{})
 	progress := make(chan int, len(ops)+1)
@@ -219,6 +229,14 @@ loop:
 		select {
 		case i := <-progress:
 			completed = i
+			// the watchdog measures the time since the last operation finished, not the length of the history
+			if !timer.Stop() {
+				select {
+				case <-timer.C:
+				default:
+				}
+			}
+			timer.Reset(timeout)
 		case <-done:
 			for len(progress) > 0 {
 				completed = <-progress
@@ -306,7 +324,9 @@ func main() {
 		st := newStats()
 		sc := bufio.NewScanner(os.Stdin)
 		sc.Buffer(make([]byte, 1<<20), 1<<26)
-		timeout := 10 * time.Second
+		// generous: on a loaded machine a slow operation must not be mistaken for a hang (a false alarm on the
+		// unchanged tree); a real hang costs at most three such periods per run (see runCase)
+		timeout := 120 * time.Second
 		if v := os.Getenv("VERIF_CASE_TIMEOUT_MS"); v != "" {
 			if ms, err := strconv.Atoi(v); err == nil {
 				timeout = time.Duration(ms) * time.Millisecond
